@@ -10,7 +10,8 @@ open Pyemv Pyemv.Gen
 theorem kd_tree_sk (mk atc : Bytes) (h b : Nat) (iv : Bytes) :
     Gen.kd.derive_emv2000_tree_sk mk atc h b iv = deriveEmv2000TreeSk mk atc h b iv := by
   unfold Gen.kd.derive_emv2000_tree_sk deriveEmv2000TreeSk pyDiv
-  simp only [kd_tree_walk, kd_tree_derive, tools_xor, tools_adjust, bind, Except.bind, pure, Except.pure]
+  try simp only [bind_pure]      -- `do let v ← e; pure v` is `e` (single-exit rewrites)
+  simp only [kd_tree_walk, kd_tree_derive, tools_xor, tools_adjust, bind, Except.bind, pure, Except.pure, except_match_eta]
   by_cases h1 : mk.length = 16 <;> by_cases h2 : atc.length = 2 <;> by_cases h3 : iv.length = 16 <;>
     by_cases hg : b ^ h ≤ 65535 <;> by_cases hb : b = 0 <;>
     simp [h1, h2, h3, hg, hb, throw, throwThe, MonadExceptOf.throw]
